@@ -445,99 +445,55 @@ def nxt(ck, an):
             if isinstance(p, ast.ExceptHandler) and p.type is not None and "IndexError" in ast.unparse(p.type):
                 ok = True
     ck.check(ok, "GUARD", "S3.stop-at-episode-end", subj, fa.f.loc, "running past the episode's last step raises StopIteration", "no `except IndexError: raise StopIteration`", construct="except IndexError: raise StopIteration()")
-    # S9 history branch condition
-    hist_if = None
-    for n in ast.walk(fa.f.node):
-        if isinstance(n, ast.If):
-            c = fa.sym.cmp(n.test)
-            atoms = cmp_atoms(c)
-            if any(a[0] == "truthy" and a[1] == "self._markov_reset" for a in atoms) or any(a[0] == "rel" and "_step_nr" in a[2] for a in atoms):
-                hist_if = (n, c, atoms)
-                break
-    if hist_if is None:
-        ck.fail("GUARD", "S9.history-on-first-step-only", subj, fa.f.loc, "no history branch in _next", construct="if self._step_nr == 1 and not self._markov_reset")
-        return
-    n, c, atoms = hist_if
-    hist_pol = True           # which arm of the `if` replays history: an inverted test (`if not (...): regular else: history`) is the same branch
-    if c[0] == "or":
-        from sa.dataflow import cmp_negate
-        c = cmp_negate(c)
-        atoms = cmp_atoms(c)
-        hist_pol = False
-    hist_block = n.body if hist_pol else n.orelse
-    first = any(a[0] == "rel" and a[1] == "==" and a[4] in (Poly.atom("self._step_nr") - Poly.const(1), Poly.const(1) - Poly.atom("self._step_nr")) for a in atoms)
-    nomk = any(a[0] == "truthy" and a[1] == "self._markov_reset" and a[2] is False for a in atoms)
-    ck.check(c[0] == "and" and len(atoms) == 2 and first and nomk, "GUARD", "S9.history-on-first-step-only", subj, fa.loc(n),
-             "history is replayed iff this is the episode's first batch and markov reset is off", f"history branch condition is {cmp_key(c)}", construct="if " + ast.unparse(n.test))
+    # S7 / S9: what _next hands out, as a decision table over (first batch of the episode?, markov reset?): the function is
+    # evaluated abstractly under each assignment and the returned pair compared, as value ids, with its specification. The
+    # statement form (if/else, early return for regular steps, temporaries, renamed locals) is immaterial.
+    FIRST = ("rel", "==", "self._step_nr", False, Poly.atom("self._step_nr"))        # the pointer was 0 before this call: the first batch
+    MARKOV = ("truthy", "self._markov_reset", True)
+
+    ORIGIN = "((self._current_time - self._warmup) if self._warmup else datetime.min)"
+    HIST = []
+    for union in ("set(self._partition_latent) | set(self._partition_nonlatent)", "set(self._partition_nonlatent) | set(self._partition_latent)"):
+        for empty in ("list()", "[]"):
+            for sel in (f"sorted(t for t in {union} if {ORIGIN} <= t <= self._current_time)", f"sorted([t for t in {union} if {ORIGIN} <= t <= self._current_time])"):
+                for flat in ("list(itertools.chain(*[self._partition_latent.get(t, []) + self._partition_nonlatent.get(t, []) for t in {sel}]))",
+                             "list(itertools.chain.from_iterable([self._partition_latent.get(t, []) + self._partition_nonlatent.get(t, []) for t in {sel}]))",
+                             "[e for t in {sel} for e in self._partition_latent.get(t, []) + self._partition_nonlatent.get(t, [])]"):
+                    HIST.append(ast.parse(f"({empty}, {flat.format(sel=sel)})", mode="eval").body)
+    REG = [ast.parse("(self._partition_latent[self._current_time], self._partition_nonlatent[self._current_time])", mode="eval").body]
+
+    def returned(fw_, events):
+        """for every live return: (value id, is the specified history pair, is the specified regular pair) - the specifications
+        are evaluated in the state of that very return, by the same evaluator"""
+        out = []
+        for r_, v, st_ in fw_.returns:
+            if v is None:
+                continue
+            fw_.st = st_
+            hs = {fw_.canon(x) for x in HIST}
+            rs = {fw_.canon(x) for x in REG}
+            out.append((v.key(), v.key() in hs, v.key() in rs, sorted(hs)[0]))
+        return out
+    tab = decision_table(fa, [FIRST, MARKOV], returned)
+    for (first, markov), got in tab.items():
+        want_hist = first and not markov
+        regime = f"first batch={first}, markov reset={markov}"
+        keys = sorted({g[0] for g in got})
+        if want_hist:
+            ok = len(keys) == 1 and all(g[1] for g in got)
+            ck.check(ok, "IDIOM", "S7.history-batch-ordered", subj, fa.f.loc,
+                     "the first batch (markov reset off) is ([], history): for each event-bearing timestep t of either partition with origin <= t <= current time, in ascending order, its latent events then its "
+                     "non-latent events; origin = current time - warm-up horizon, or the beginning of time",
+                     f"{regime}: _next returns {[k[:300] for k in keys]}", construct="history branch of _next", witness=[f"got       {k}" for k in keys] + [f"specified {got[0][3] if got else '?'}"])
+        else:
+            ok = len(keys) == 1 and all(g[2] for g in got)
+            ck.check(ok, "ARGFLOW", "S7.step-batch-is-own-partitions" if not first else "S9.history-on-first-step-only", subj, fa.f.loc,
+                     "a regular step (and the first one under markov reset) hands out (latent[current], nonlatent[current])", f"{regime}: _next returns {[k[:200] for k in keys]}",
+                     construct="return events_latent, events_nonlatent (step)")
     if incs:
-        ord_before(ck, fa, "S9.first-step-test-after-advance", incs, [n.test], "the pointer advance", "the first-step test (_step_nr == 1)")
-    # origin
-    ORIGIN = "(self._current_time - self._warmup) if self._warmup else datetime.min"      # the warm-up horizon, matched by value id where it bounds the history (below)
-    # S7 batch shape
-    fw = Forward(an, fa, assume=lambda s, f: hist_pol if s is n else None, call_effects=False).run()
-    hist_rets = [(r, v, st) for r, v, st in fw.returns]
-    fw2 = Forward(an, fa, assume=lambda s, f: (not hist_pol) if s is n else None, call_effects=False).run()
-    for r, v, st in fw2.returns:
-        k = v.key() if v is not None else "?"
-        ck.check(k == "(self._partition_latent[self._current_time], self._partition_nonlatent[self._current_time])" or
-                 k == "(self._partition_latent[self._steps[self._step_nr]], self._partition_nonlatent[self._steps[self._step_nr]])", "ARGFLOW", "S7.step-batch-is-own-partitions", subj, fa.loc(r),
-                 "a regular step hands out (latent[current], nonlatent[current])", f"regular batch is {k[:160]}", construct="return events_latent, events_nonlatent (step)")
-    org = False
-    for r, v, st in hist_rets:
-        rv_, rat_ = deref(fa, r.value)
-        if not isinstance(rv_, ast.Tuple) or len(rv_.elts) != 2:
-            ck.fail("ARGFLOW", "S7.history-batch-ordered", subj, fa.loc(r), "the history batch is not a (latent, non-latent) pair", construct=stmt_text(r))
-            continue
-        fwh = Forward(an, fa, assume=lambda s, f: hist_pol if s is n else None, call_effects=False)
-        fwh.run()
-        fwh.st = st
-        lat_k = fwh.canon(rv_.elts[0])
-        non_k = fwh.canon(rv_.elts[1])
-        multi_l = "for " in lat_k
-        multi_n = "for " in non_k
-        if multi_l and multi_n:
-            ck.fail("IDIOM", "S7.history-batch-ordered", subj, fa.loc(r), "history replays all latent events of all timesteps, then all non-latent ones: timestamps go back in time when latency > 0",
-                    construct="history branch of _next", witness=[f"latent  = {lat_k[:200]}", f"nonlatent = {non_k[:200]}"])
-            continue
-        empty_l = lat_k in ("list()", "[]", "()")
-        # single aggregated list: per key latent first, keys ascending, both partitions, bounded
-        agg = non_k
-        ok_sorted = "sorted(" in agg
-        i_l, i_n = agg.find("_partition_latent"), agg.find("_partition_nonlatent")
-        # per-key concatenation latent + nonlatent : look at the syntactic element expression
-        elt_ok = False
-        for node in ast.walk(fa.f.node):
-            if isinstance(node, (ast.ListComp, ast.GeneratorExp)) and isinstance(node.elt, ast.BinOp) and isinstance(node.elt.op, ast.Add):
-                l, rr = ast.unparse(node.elt.left), ast.unparse(node.elt.right)
-                if "_partition_latent" in l and "_partition_nonlatent" in rr:
-                    elt_ok = True
-        bounds = org = False
-        for node in [x for b_ in hist_block for x in ast.walk(b_)]:
-            if isinstance(node, (ast.ListComp, ast.GeneratorExp)):
-                for gen in node.generators:
-                    tv = gen.target.id if isinstance(gen.target, ast.Name) else None
-                    for cond in gen.ifs:
-                        fa.sym.scope.append({tv} if tv else set())
-                        try:
-                            cc = fa.sym.cmp(cond, fa.cfg.node_of(node).id if fa.cfg.node_of(node) else None)
-                        finally:
-                            fa.sym.scope.pop()
-                        orig_p = specv(fa, ORIGIN, fa.cfg.node_of(node).id if fa.cfg.node_of(node) else None)
-                        for a in cmp_atoms(cc):
-                            if a[0] == "rel" and a[1] == "<=" and tv and a[4] == Poly.atom(tv) - Poly.atom("self._current_time"):
-                                bounds = True
-                            if a[0] == "rel" and a[1] == "<=" and tv and a[4] == orig_p - Poly.atom(tv):
-                                org = True
-        both_keys = "set(self._partition_latent)" in agg and "set(self._partition_nonlatent)" in agg
-        ck.check(empty_l and ok_sorted and elt_ok and both_keys, "IDIOM", "S7.history-batch-ordered", subj, fa.loc(r),
-                 "history is one batch: for each timestep in ascending order, its latent events then its non-latent events, over the keys of both partitions",
-                 f"history batch shape not recognised as time-ordered: latent={lat_k[:80]}, nonlatent={non_k[:200]}", construct="history branch of _next")
-        ck.check(bounds, "CMP", "S9.history-upper-bound", subj, fa.loc(r), "history is bounded above by the current step (t <= current time, inclusive)",
-                 f"no `t <= self._current_time` bound on the history: {agg[:200]}", construct="if origin <= t <= self._current_time")
-        ck.check(org, "CMP", "S9.history-lower-bound", subj, fa.loc(r), "history is bounded below by the warm-up origin: (current time - warm-up horizon, or the beginning of time) <= t",
-                 f"no `origin <= t` bound with origin = {ORIGIN} on the history: {agg[:200]}", construct="if origin <= t <= self._current_time")
-    ck.check(org, "LIN", "S9.warmup-horizon", subj, fa.loc(n), "origin = current time - warm-up horizon, or the beginning of time", "the history's lower bound is not (self._current_time - self._warmup) if self._warmup else datetime.min",
-             construct="origin = (self._current_time - self._warmup) if self._warmup else datetime.min")
+        tests_ = [n_.test for n_ in ast.walk(fa.f.node) if isinstance(n_, ast.If) and any(isinstance(x, ast.Attribute) and x.attr == "_step_nr" for x in ast.walk(n_.test))]
+        if tests_:
+            ord_before(ck, fa, "S9.first-step-test-after-advance", incs, tests_, "the pointer advance", "the first-step test (_step_nr == 1)")
     partition_reads(ck, an)
     own_callers(ck, an, "S2.next-callers", "Transmitter._next", {"TradingEnv.reset", "TradingEnv._process_nonlatent_events"})
     # _reset rewinds the pointer
